@@ -93,3 +93,14 @@ Proof.
   - destruct inc; cbn [negb forallb]; [rewrite E, Bool.andb_true_r; reflexivity|reflexivity].
   - induction (nodes_with_paths p (Comp k f x ch) inc) as [|a l IH]; cbn [forallb]; [reflexivity|]. now rewrite E, IH.
 Qed.
+
+(* round 7: Builder.flatten and ConfigNode.merge, translated: all stages mappings; the first stage premerged against nothing and required to
+   allow new paths; then the left fold, in index order, of root.merge(stage) = premerge against the current root, then the recursive merge *)
+Lemma srcm_merge2 e root other : SrcM.merge2 e root other = merge2 e root other.
+Proof. reflexivity. Qed.
+
+Lemma srcm_flatten e stages : SrcM.flatten e stages = flatten e stages.
+Proof.
+  unfold SrcM.flatten, flatten. destruct stages as [|s0 rest]; [reflexivity|]. destruct (forallb is_dictk (s0 :: rest)); [|reflexivity].
+  destruct (on_premerge e [] s0 None) as [[[[s0' a] b] c]|ek q]; cbn [bind]; [|reflexivity]. rewrite srcm_require_all_new. reflexivity.
+Qed.
